@@ -39,6 +39,24 @@ CHECKS = {
              "are field-wise included and no skipped kind is involved, for every skip list (exact + skip clauses; helpers.subnet_of exact). Bounded: all ordered pairs "
              "of group-free classes x 5 skip lists decided by set algebra; Acl.shading == specification from real pairwise answers on all short ACLs.",
         note="L13.exact (network-wise containment of two single wildcards <=> set inclusion) is covered by the bounded pairs only. " + TB),
+    "C05": dict(
+        level="other", design_ref="DESIGN.md 5/C05",
+        technique="contracts + loop invariants on wildcard.py kernels (list level and 64-bit word level) discharged by own VC generator; 32-bit SMT lemmas; syntactic frame obligation for memoisation; bounded contract checking of the text front end",
+        text="Discharged for all inputs: Wildcard._prefixlen_idx, _ncw_bits (raises iff count > limit), _create_ncwb (prefix length = 32 - trailing ones; ncwb = exactly "
+             "the wildcard bit positions above, descending; never more than the limit), _create_prefix (base masked), the network generator _ipnets (2^k networks, "
+             "u-th network = prefix with the u-th 0/1 tuple spread over the ncwb positions; both loops by invariant; IPv4Network cannot raise). Lemmas L5.exact/"
+             "disjoint/nohost/single/count: those networks cover W(base, mask) exactly, without overlap. Memoisation: frame obligation (memoised code reads no object "
+             "state). Bounded (labelled): Wildcard(line) on 500+ masks x bases x limits, ipnet-iff-contiguous, and all reassignment histories of length <= 3.",
+        note="Not proved: _create_ipnet / invert_mask / is_mask / fprefix / fsubnet (dotted-quad text), Wildcard.line.fset composition. Assumed: IPv4Address/IPv4Network "
+             "codecs, str.split, itertools.product = all 0/1 tuples once, lru_cache = first result per key. " + TB),
+    "C13": dict(
+        level="other", design_ref="DESIGN.md 5/C13",
+        technique="contracts on helpers/functions/AddressBase subnet_of, AddressBase.ipnets, __contains__ discharged by own VC generator; SMT lemmas L13.*; bounded spelling pairs",
+        text="Discharged: the three subnet_of forms return exactly `every bottom network inside some top network` (helpers: and both non-empty); AddressBase.ipnets is the "
+             "single network / the wildcard's networks / the union over group members (loop invariant); member `in` member is prefix containment. Lemmas L13.sound, "
+             "L13.bits.sound/exact, L13.closed, L13.exact (single wildcards: set inclusion => network-wise containment) and L5.exact connect this to address sets. "
+             "Bounded (labelled): all ordered pairs of 21 spellings per platform against exact set algebra; member/group `in`.",
+        note="Address classification by line.fset and AddrGroup.__contains__ (user __eq__) are bounded only. " + TB),
     "C08": dict(
         level="other", design_ref="DESIGN.md 5/C08",
         technique="contracts on Port._items_to_ports/_ports_to_items discharged by own VC generator (z3/cvc5); codec and setter text path by bounded contract checking",
